@@ -205,3 +205,197 @@ def sorted_before_use(chk, repo, rid, fqual, ctor, kw, why):
         if not good:
             ok, detail = False, f"'{L}' is passed as {kw} without a dominating {L}.sort() after its last append"
     chk.ob(rid, f"{f.name}: {kw} of {ctor}(...) is sorted after it was built", f.where, ok, f"{detail}: {why}", key=f"{fqual}::sorted::{kw}", fn=f.qual)
+
+
+# ----------------------------------------------------------------------------- memo keyed by a lossy projection of its inputs
+def _deps(fn, name, params, depth=0, seen=None):
+    """parameters the value of local `name` may depend on (data deps through assignments / mutations, control deps through
+    enclosing loop headers and tests)"""
+    seen = seen if seen is not None else set()
+    if name in seen:
+        return set()
+    seen.add(name)
+    if name in params:
+        return {name}
+    out = set()
+
+    def ctl_names(st):
+        names = set()
+        for p in ast.walk(fn):
+            for fld in ('body', 'orelse'):
+                b = getattr(p, fld, None)
+                if isinstance(b, list) and st in b:
+                    if isinstance(p, ast.For):
+                        names |= {x.id for x in ast.walk(p.iter) if isinstance(x, ast.Name)}
+                        names |= ctl_names(p)
+                    elif isinstance(p, (ast.If, ast.While)):
+                        names |= {x.id for x in ast.walk(p.test) if isinstance(x, ast.Name)}
+                        names |= ctl_names(p)
+                    elif not isinstance(p, (ast.FunctionDef, ast.AsyncFunctionDef)):
+                        names |= ctl_names(p)
+        return names
+    for st in [s for s in ast.walk(fn) if isinstance(s, ast.stmt)]:
+        touches = False
+        reads = set()
+        if isinstance(st, (ast.Assign, ast.AugAssign, ast.AnnAssign)):
+            tgts = st.targets if isinstance(st, ast.Assign) else [st.target]
+            for t in tgts:
+                base = t
+                while isinstance(base, (ast.Subscript, ast.Attribute)):
+                    base = base.value
+                if isinstance(base, ast.Name) and base.id == name:
+                    touches = True
+                for e in ast.walk(t):
+                    if isinstance(e, ast.Name) and e.id == name and isinstance(t, (ast.Tuple, ast.List)):
+                        touches = True
+            if touches and getattr(st, 'value', None) is not None:
+                reads |= {x.id for x in ast.walk(st.value) if isinstance(x, ast.Name)}
+                for t in tgts:
+                    if isinstance(t, ast.Subscript):
+                        reads |= {x.id for x in ast.walk(t.slice) if isinstance(x, ast.Name)}
+        elif isinstance(st, ast.For) and any(isinstance(x, ast.Name) and x.id == name for x in ast.walk(st.target)):
+            touches = True
+            reads |= {x.id for x in ast.walk(st.iter) if isinstance(x, ast.Name)}
+        elif isinstance(st, ast.Expr) and isinstance(st.value, ast.Call) and isinstance(st.value.func, ast.Attribute) \
+                and isinstance(st.value.func.value, ast.Name) and st.value.func.value.id == name:
+            touches = True
+            reads |= {x.id for a in st.value.args for x in ast.walk(a) if isinstance(x, ast.Name)}
+        if touches:
+            reads |= ctl_names(st)
+            for r in reads - {name}:
+                out |= _deps(fn, r, params, depth + 1, seen)
+    return out
+
+
+def _lossless_params(fn, e, params, depth=0):
+    """parameters that occur in key expression e through identity-preserving constructions only"""
+    out = set()
+    if isinstance(e, ast.Name):
+        if e.id in params:
+            return {e.id}
+        if depth < 3:
+            for st in ast.walk(fn):
+                if isinstance(st, ast.Assign) and len(st.targets) == 1 and isinstance(st.targets[0], ast.Name) and st.targets[0].id == e.id:
+                    out |= _lossless_params(fn, st.value, params, depth + 1)
+        return out
+    if isinstance(e, (ast.Tuple, ast.List)):
+        for x in e.elts:
+            out |= _lossless_params(fn, x, params, depth)
+        return out
+    if isinstance(e, ast.JoinedStr):
+        for v in e.values:
+            if isinstance(v, ast.FormattedValue):
+                out |= _lossless_params(fn, v.value, params, depth)
+        return out
+    if isinstance(e, ast.Call) and call_name(e) in ('str', 'tuple', 'int') and len(e.args) == 1:
+        return _lossless_params(fn, e.args[0], params, depth)
+    return out          # attribute dereferences, subscripts into tables, arithmetic: lossy
+
+
+def memo_param_gaps(fnode):
+    """[(store statement, key text, missing parameters)] for `self.<cache>[K] = V` where the same cache is read under K"""
+    params = {a.arg for a in fnode.args.posonlyargs + fnode.args.args + fnode.args.kwonlyargs} - {'self', 'cls'}
+    out = []
+    for st in ast.walk(fnode):
+        if not (isinstance(st, ast.Assign) and len(st.targets) == 1 and isinstance(st.targets[0], ast.Subscript)):
+            continue
+        t = st.targets[0]
+        if not (isinstance(t.value, ast.Attribute) and unparse(t.value.value) == 'self'):
+            continue
+        cache = unparse(t.value)
+        ktxt = unparse(t.slice)
+        read = any((isinstance(c, ast.Call) and call_name(c) == 'get' and unparse(c.func.value) == cache and c.args and unparse(c.args[0]) == ktxt) or
+                   (isinstance(c, ast.Subscript) and isinstance(c.ctx, ast.Load) and unparse(c.value) == cache and unparse(c.slice) == ktxt) or
+                   (isinstance(c, ast.Compare) and len(c.ops) == 1 and isinstance(c.ops[0], (ast.In, ast.NotIn)) and unparse(c.comparators[0]) == cache and unparse(c.left) == ktxt)
+                   for c in ast.walk(fnode))
+        if not read:
+            continue
+        # a memo, not a registry: the value stored is the local that first received the cache read (or the function answers with C[K])
+        is_memo = False
+        if isinstance(st.value, ast.Name):
+            V = st.value.id
+            for a in ast.walk(fnode):
+                if isinstance(a, ast.Assign) and len(a.targets) == 1 and isinstance(a.targets[0], ast.Name) and a.targets[0].id == V:
+                    if (isinstance(a.value, ast.Call) and call_name(a.value) == 'get' and unparse(a.value.func.value) == cache) or \
+                            (isinstance(a.value, ast.Subscript) and unparse(a.value.value) == cache):
+                        is_memo = True
+        if any(isinstance(r, ast.Return) and isinstance(r.value, ast.Subscript) and unparse(r.value.value) == cache for r in ast.walk(fnode)):
+            is_memo = True
+        if not is_memo:
+            continue
+        vdeps = set()
+        for x in ast.walk(st.value):
+            if isinstance(x, ast.Name):
+                vdeps |= _deps(fnode, x.id, params)
+        kp = _lossless_params(fnode, t.slice, params)
+        missing = sorted(vdeps - kp)
+        out.append((st, ktxt, missing))
+    return out
+
+
+_MEMO_BAD = """
+def find(self, transcript_id, feature):
+    tx_model = self.transcripts[transcript_id]
+    gene_id = tx_model.transcript.gene_id
+    lookup = self._lookup.get(gene_id)
+    if lookup is None:
+        lookup = {}
+        for i, exon in enumerate(tx_model.exon):
+            lookup[exon.start] = i
+        self._lookup[gene_id] = lookup
+    return lookup[feature.start]
+"""
+_MEMO_GOOD = _MEMO_BAD.replace('self._lookup.get(gene_id)', 'self._lookup.get(transcript_id)').replace('self._lookup[gene_id]', 'self._lookup[transcript_id]')
+
+
+def memo_params(chk, repo, rid, quals_or_prefix, floor=0):
+    from sa.model import AnalysisError
+    chk.rule(rid, 'R-MEMO: a persistent cache is keyed by every parameter its cached value depends on (not by a lossy projection such as the gene of a transcript)', floor)
+    if not [g for g in memo_param_gaps(ast.parse(_MEMO_BAD).body[0]) if g[2]] or [g for g in memo_param_gaps(ast.parse(_MEMO_GOOD).body[0]) if g[2]]:
+        raise AnalysisError(f"rule {rid}: built-in example of the memo-key rule no longer behaves as expected")
+    for f in repo.functions.values():
+        if not any(f.qual == q or f.qual.startswith(q) for q in quals_or_prefix):
+            continue
+        chk.functions.add(f.qual)
+        for st, ktxt, missing in memo_param_gaps(f.node):
+            chk.ob(rid, f"{f.qual}: cache entry '{unparse(st.targets[0])[:50]}' keyed by everything it depends on", repo.loc(f, st), not missing,
+                   f"the cached value depends on {missing} but the key is '{ktxt}': a later call with another {'/'.join(missing)} that maps to the same key "
+                   "gets the first caller's answer (e.g. the exon table of another isoform of the gene)", key=f"{f.qual}::memo-params::{unparse(st.targets[0].value)}", fn=f.qual)
+
+
+def pointers_append_only(chk, repo, rid, floor=2):
+    """the pointer table of the on-disk variant pool only grows: a further GVF file (indexed or not) appends to the pointer
+    list of a transcript and never replaces it"""
+    from sa import sem
+    chk.rule(rid, 'adding a GVF file only appends pointers (never replaces the pointer list of a transcript known from an earlier file)', floor)
+    for q in ('seqvar.VariantRecordPoolOnDisk:VariantRecordPoolOnDisk.load_index', 'seqvar.VariantRecordPoolOnDisk:VariantRecordPoolOnDisk.generate_index'):
+        g = repo.func(q)
+        chk.uses(g)
+        nf = sem.nf(repo, g)
+        bad, n_app = [], 0
+        sites = sem.facts_where(nf, lambda st: 'self.pointers' in unparse(st) and sem.own_stmt(st))
+        for st, fx in sites:
+            t = unparse(st)
+            if isinstance(st, ast.Expr) and isinstance(st.value, ast.Call) and call_name(st.value) == 'append' and \
+                    (unparse(st.value.func.value).startswith('self.pointers[') or unparse(st.value.func.value).startswith('self.pointers.setdefault(')):
+                n_app += 1
+                continue
+            if isinstance(st, ast.Assign) and isinstance(st.targets[0], ast.Subscript) and unparse(st.targets[0].value) == 'self.pointers':
+                K = unparse(st.targets[0].slice)
+                if sem.known(fx, f"{K} not in self.pointers") is True:
+                    n_app += 1
+                    continue
+                bad.append(t[:70])
+                continue
+            # reads are fine; any other write is not
+            writes = isinstance(st, (ast.Assign, ast.AugAssign, ast.Delete)) and any('self.pointers' in unparse(x) for x in (
+                st.targets if isinstance(st, (ast.Assign, ast.Delete)) else [st.target]))
+            mut = isinstance(st, ast.Expr) and isinstance(st.value, ast.Call) and isinstance(st.value.func, ast.Attribute) and \
+                unparse(st.value.func.value).startswith('self.pointers') and st.value.func.attr in ('update', 'pop', 'clear', 'popitem', 'setdefault', '__setitem__')
+            if writes or mut:
+                if mut and st.value.func.attr == 'setdefault':
+                    continue
+                bad.append(t[:70])
+        chk.ob(rid, f"{g.name}: pointer lists are only appended to", g.where, not bad and n_app >= 1,
+               f"writes to self.pointers other than appends: {bad or 'no append found'}: pointers of transcripts known from earlier GVF files can be replaced "
+               "(records of the earlier files are lost for those transcripts)", key=q + '::append-only', fn=g.qual)
